@@ -42,6 +42,8 @@ type Opts struct {
 	KillAt   int      // >0: kill at the entry of this counted call
 	HoldAt   int      // >0: hold there and run HoldCmd
 	HoldCmd  string
+	FailAt   int // >0: make this counted call fail with FailErrno instead of executing it
+	FailErrno int
 	Env      []string
 	Dir      string
 	Timeout  time.Duration
@@ -72,6 +74,9 @@ func Run(scratch string, o Opts, argv ...string) (*Result, error) {
 	}
 	if o.HoldAt > 0 {
 		args = append(args, "-h", strconv.Itoa(o.HoldAt), "-r", o.HoldCmd)
+	}
+	if o.FailAt > 0 {
+		args = append(args, "-f", fmt.Sprintf("%d:%d", o.FailAt, o.FailErrno))
 	}
 	args = append(args, "--")
 	args = append(args, argv...)
